@@ -63,7 +63,7 @@ def vmsa_task(task):
         g.name = '%s-t%d' % (task['name'], t)
         g.events, g.meta = [], {}
         st = proto.fresh()
-        C.randomize(st, rnd, mode=rnd.choice([16, 19, 31, 17]), thumb=False, pc=0x40)
+        C.randomize(st, rnd, mode=rnd.choice([16, 19, 31, 17]), thumb=False, pc=0x40, e=rnd.getrandbits(1))
         n = rnd.choice([0, 0, 1, 2, 3, 5, 7])
         ee = rnd.getrandbits(1) if rnd.random() < 0.3 else 0
         afe = rnd.getrandbits(1) if rnd.random() < 0.4 else 0
@@ -174,7 +174,7 @@ def vmsa_ld_task(task):
         g.name = '%s-t%d' % (task['name'], t)
         g.events, g.meta = [], {}
         st = proto.fresh()
-        C.randomize(st, rnd, mode=rnd.choice([16, 19, 31, 17]), thumb=False, pc=0x40)
+        C.randomize(st, rnd, mode=rnd.choice([16, 19, 31, 17]), thumb=False, pc=0x40, e=rnd.getrandbits(1))
         ee = rnd.getrandbits(1) if rnd.random() < 0.3 else 0
         t0sz, t1sz = rnd.choice([0, 0, 1, 2, 3, 7]), rnd.choice([0, 0, 1, 2, 5])
         sct = (C.unlimbs(g.base['sys']['SCTLR']) & ~((1 << 25) | (1 << 29) | (1 << 28) | 1 | 2)) | (1 << 22)
